@@ -14,7 +14,9 @@
    wf_core W i  (Proofs/WmdIO.v)  :=  data_type "wmd"
      /\ the nine header fields and all alternative names are single-line and without outer whitespace (they may
         be empty), the keys of alternatives_name are distinct                       [wf_fields, wf_names]
-     /\ node_mapping is a dict (distinct keys) of duplicate-free sets whose elements are nodes   [wf_nmap]
+     /\ node_mapping is a dict (distinct keys) of duplicate-free sets whose elements are nodes   [wf_nmap];
+        node ids are integers of EITHER SIGN (Z); the keys of alternatives_name are N: only non-negative ids
+        can carry a name (the header pattern is (\d+)), so "named alternatives are non-negative" holds by type
      /\ the keys of the weight table are distinct and are exactly the stored edges  [wf_weights]
      /\ num_edges = number of stored edges  /\  there is at least one edge.
    wf_wmd W show_w read_w i := wf_core W i /\ every weight w stored in i satisfies good_w w, i.e. the four codec
@@ -29,8 +31,8 @@
      /\ (forall n, n is a node of i' <-> n is incident to an edge of i)               isolated nodes are lost
      /\ num_edges i' = number of stored edges of i' = num_edges i
      /\ wf_wmd W show_w read_w i'. *)
-From Coq Require Import List NArith Bool String Permutation Sorted.
-From PrefVerif Require Import Lib.Val Lib.Dec Lib.PyStr Model.Meta Model.WmdIO.
+From Coq Require Import List NArith ZArith Bool String Permutation Sorted.
+From PrefVerif Require Import Lib.Val Lib.Dec Lib.DecZ Lib.PyStr Model.Meta Model.WmdIO.
 From PrefVerif Require Import Proofs.Meta Proofs.WmdSort Proofs.WmdGraph Proofs.WmdIO.
 Import ListNotations.
 Open Scope string_scope.
@@ -112,8 +114,12 @@ Theorem C09_idempotent_tokens : forall i i' : twinst,
 Proof. intros i i' H F. apply tok_idempotent. now split. Qed.
 
 (* the sort used by the writer sorts *)
-Theorem C09_sort_sorts : forall l, StronglySorted N.le (isort_N l) /\ Permutation l (isort_N l).
-Proof. intros l. split; [apply isort_N_sorted|apply isort_N_perm]. Qed.
+Theorem C09_sort_sorts : forall l, StronglySorted Z.le (isort_Z l) /\ Permutation l (isort_Z l).
+Proof. intros l. split; [apply isort_Z_sorted|apply isort_Z_perm]. Qed.
+
+(* node ids are printed and read back exactly, whatever their sign *)
+Theorem C09_node_id_codec : forall z, py_int_Z (show_Z z) = Ok z.
+Proof. exact py_int_show_Z. Qed.
 
 (* parse_lines refuses every declared type other than wmd *)
 Theorem C09_type_gate : forall W read_w ac ho m ls,
@@ -129,6 +135,7 @@ Print Assumptions C09_roundtrip_pointwise.
 Print Assumptions C09_roundtrip_tokens.
 Print Assumptions C09_idempotent_tokens.
 Print Assumptions C09_sort_sorts.
+Print Assumptions C09_node_id_codec.
 Print Assumptions C09_type_gate.
 
 (* ---- non-vacuity: W := N with decimal printing satisfies the four hypotheses, and a concrete instance with a
@@ -146,8 +153,10 @@ Definition ex_meta : meta :=
   mkMeta (lit "ex.wmd") (lit "A title, with: separators # {}") [] (lit "wmd") (lit "synthetic") [] (lit "a.wmd,b.wmd")
          (lit "2024-01-01") (lit "2024-01-02") 3 17
          [(2, lit "second one"); (1, []); (3, lit "c")] [].
+(* negative source, negative target, negative self-loop, antiparallel edges, isolated node 3 *)
 Definition ex_inst : winst N :=
-  mkW ex_meta 3 [(2, [2; 1]); (1, [2]); (3, [])] [((2, 2), 0); ((1, 2), 7); ((2, 1), 1000000000000000000000)].
+  mkW ex_meta 3 [(-2, [-2; 1]); (1, [-2]); (3, [])]%Z
+      [((-2, -2)%Z, 0); ((1, -2)%Z, 7); ((-2, 1)%Z, 1000000000000000000000)].
 
 Example C09_ex_wf : wf_core N ex_inst.
 Proof.
@@ -161,34 +170,34 @@ Proof.
     - repeat constructor; cbn; intuition discriminate. }
   split.
   { split; [repeat constructor; cbn; intuition discriminate|]. split.
-    - intros n. unfold nbrs. cbn.
-      destruct (N.eqb n 2); [repeat constructor; cbn; intuition discriminate|].
-      destruct (N.eqb n 1); [repeat constructor; cbn; intuition discriminate|].
-      destruct (N.eqb n 3); constructor.
-    - intros n m. unfold nbrs. cbn.
-      destruct (N.eqb n 2); [cbn; intuition|]. destruct (N.eqb n 1); [cbn; intuition|].
-      destruct (N.eqb n 3); cbn; intuition. }
+    - intros n. unfold nbrs. cbn [assoc_get].
+      destruct (Z.eqb n (-2)); [repeat constructor; cbn; intuition discriminate|].
+      destruct (Z.eqb n 1); [repeat constructor; cbn; intuition discriminate|].
+      destruct (Z.eqb n 3); constructor.
+    - intros n m. unfold nbrs. cbn [assoc_get keys map fst].
+      destruct (Z.eqb n (-2)); [cbn; intuition|]. destruct (Z.eqb n 1); [cbn; intuition|].
+      destruct (Z.eqb n 3); cbn; intuition. }
   split.
   { split; [repeat constructor; cbn; intuition discriminate|].
-    intros n m. unfold nbrs. cbn. split.
+    intros n m. unfold nbrs. cbn [w_nodes w_weights assoc_get keys map fst]. split.
     - intros [H|[H|[H|[]]]]; injection H as <- <-; cbn; auto.
-    - destruct (N.eqb_spec n 2) as [->|]; [cbn; intuition (subst; auto)|].
-      destruct (N.eqb_spec n 1) as [->|]; [cbn; intuition (subst; auto)|].
-      destruct (N.eqb n 3); cbn; intuition. }
+    - destruct (Z.eqb_spec n (-2)) as [->|]; [cbn; intuition (subst; auto)|].
+      destruct (Z.eqb_spec n 1) as [->|]; [cbn; intuition (subst; auto)|].
+      destruct (Z.eqb n 3); cbn; intuition. }
   split; [reflexivity|discriminate].
 Qed.
 
 (* the theorems applied to it: the file is read back; node 3 (isolated) is gone, everything else is there *)
 Example C09_ex_roundtrip :
   wmd_parse N read_N false false (meta0 (lit "wmd")) (readlines (wmd_write N show_N ex_inst)) =
-  Ok (mkW (set_num_voters ex_meta 3) 3 [(1, [2]); (2, [1; 2])]
-          [((1, 2), 7); ((2, 1), 1000000000000000000000); ((2, 2), 0)]).
+  Ok (mkW (set_num_voters ex_meta 3) 3 [(-2, [-2; 1]); (1, [-2])]%Z
+          [((-2, -2)%Z, 0); ((-2, 1)%Z, 1000000000000000000000); ((1, -2)%Z, 7)]).
 Proof. vm_compute. reflexivity. Qed.
 
 (* the hypothesis "at least one edge" cannot be dropped: with no edge the last header line is taken for an
    edge line (the loop variable of the header loop keeps its last value) and parsing raises ValueError.
    The witness satisfies every other clause of wf_core. *)
-Definition ex_noedge : winst N := mkW ex_meta 0 [(1, []); (2, [])] [].
+Definition ex_noedge : winst N := mkW ex_meta 0 [(1, []); (-2, [])]%Z [].
 
 Theorem C09_needs_an_edge : exists i : winst N,
   (data_type (w_meta i) = lit "wmd" /\ wf_fields (w_meta i) /\ wf_names (alt_names (w_meta i)) /\
@@ -200,10 +209,11 @@ Proof.
   destruct C09_ex_wf as (H1 & H2 & H3 & _). unfold ex_noedge. cbn [w_meta w_nodes w_weights w_num_edges] in *.
   split; [exact H1|]. split; [exact H2|]. split; [exact H3|]. split.
   { split; [repeat constructor; cbn; intuition discriminate|]. split.
-    - intros n. unfold nbrs. cbn. destruct (N.eqb n 1); [constructor|]. destruct (N.eqb n 2); constructor.
-    - intros n m. unfold nbrs. cbn. destruct (N.eqb n 1); [cbn; intuition|]. destruct (N.eqb n 2); cbn; intuition. }
+    - intros n. unfold nbrs. cbn [assoc_get]. destruct (Z.eqb n 1); [constructor|]. destruct (Z.eqb n (-2)); constructor.
+    - intros n m. unfold nbrs. cbn [assoc_get keys map fst].
+      destruct (Z.eqb n 1); [cbn; intuition|]. destruct (Z.eqb n (-2)); cbn; intuition. }
   split; [|reflexivity].
-  split; [constructor|]. intros n m. unfold nbrs. cbn. split; [intros []|].
-  destruct (N.eqb n 1); [cbn; intuition|]. destruct (N.eqb n 2); cbn; intuition.
+  split; [constructor|]. intros n m. unfold nbrs. cbn [w_nodes w_weights assoc_get keys map fst]. split; [intros []|].
+  destruct (Z.eqb n 1); [cbn; intuition|]. destruct (Z.eqb n (-2)); cbn; intuition.
 Qed.
 Print Assumptions C09_needs_an_edge.
